@@ -1,11 +1,12 @@
 (* C08 obligations.  Statements only; proofs are in SacnTrack/SacnProofs/SacnThms/ArtProofs. *)
 From OlaBase Require Import Bytes.
-From C08 Require Import Gen Model Spec SacnThms TextSpec TextCheck ShadowThm ArtDistinct ArtStep NodeProofs Final.
+From C08 Require Import Gen Model Spec SacnThms TextSpec TextCheck ShadowThm ArtDistinct ArtStep NodeProofs WireProofs ExtProofs Final.
 Local Open Scope N_scope.
 
 (* the property's literal numbers are the constants of the checked-out tree *)
 Theorem c08_consts :
   E131_PREVIEW_DATA_MASK = 2 ^ 7 /\ E131_STREAM_TERMINATED_MASK = 2 ^ 6 /\ VECTOR_E131_DATA = 2 /\
+  VECTOR_ROOT_E131 = 4 /\ VECTOR_ROOT_E131_REV2 = 3 /\ ARTNET_MAX_PORTS = 4 /\
   EXPIRY_INTERVAL_US = 2500000 /\ SACN_MAX_PRIORITY = 200 /\ SACN_MAX_MERGE_SOURCES = 6 /\
   SEQUENCE_DIFF_THRESHOLD_NEG = 20 /\ ARTNET_MAX_MERGE_SOURCES = 2 /\ ARTNET_MERGE_TIMEOUT = 10 /\
   DMX_UNIVERSE_SIZE = 512.
@@ -257,6 +258,109 @@ Theorem c08_artnet_node :
 Proof. exact c08_artnet_node_l. Qed.
 Print Assumptions c08_artnet_node.
 
+(* sACN, whole datagrams (IncomingUDPTransport -> RootInflator -> E131Inflator / E131InflatorRev2 ->
+   DMPE131Inflator): a datagram is dropped unless it starts with the ACN preamble, its root vector is
+   VECTOR_ROOT_E131 (ratified framing) or VECTOR_ROOT_E131_REV2 (revision-2 framing: no preview, no
+   terminate) and its framing vector is the data vector; otherwise it is handled exactly as the decoded
+   packet, by the SAME merger.  A history of datagrams reaches exactly the state of the history of the
+   packets decoded from it, so every history theorem above holds for datagram histories. *)
+Theorem c08_sacn_datagram :
+  (forall c now st d,
+     handle_dgram c now st d = match dpkt d with Some p => handle c now st p | None => (st, OIgnore) end) /\
+  (forall c h st, drun c st h = run c st (dpkts h)) /\
+  (forall w, p_rev2 (pkt_of_wire (with_rev2 true w)) = true /\
+             p_preview (pkt_of_wire (with_rev2 true w)) = false /\
+             p_term (pkt_of_wire (with_rev2 true w)) = false).
+Proof. exact c08_sacn_datagram_l. Qed.
+Print Assumptions c08_sacn_datagram.
+
+(* sACN, "no more than the documented number of sources are merged": after EVERY history of packets, and
+   of datagrams, at most MAX_MERGE_SOURCES (regenerated from DMPE131Inflator.h) sources are tracked -
+   and the merge is over the tracked sources (c08_sacn_output); a packet from a further source that does
+   not outrank a full table is refused: buffer, published priority, active priority unchanged, no
+   callback, the newcomer is not tracked (only timed-out sources may be swept). *)
+Theorem c08_sacn_cap :
+  (forall c (h : list (N * pkt)),
+     (length (u_srcs (run c init_ust h)) <= N.to_nat SACN_MAX_MERGE_SOURCES)%nat) /\
+  (forall c (h : list (N * dgram)),
+     (length (u_srcs (drun c init_ust h)) <= N.to_nat SACN_MAX_MERGE_SOURCES)%nat) /\
+  (forall c now st p st' oc,
+     (forall s, In s (u_srcs st) -> s_cid s <> p_cid p) ->
+     length (expire now (p_cid p) (u_srcs st)) = N.to_nat SACN_MAX_MERGE_SOURCES ->
+     p_prio p <= u_active st ->
+     handle c now st p = (st', oc) ->
+     u_buf st' = u_buf st /\ u_pout st' = u_pout st /\ no_merge oc /\ u_active st' = u_active st /\
+     (u_srcs st' = u_srcs st \/ u_srcs st' = expire now (p_cid p) (u_srcs st)) /\
+     (forall s, In s (u_srcs st') -> s_cid s <> p_cid p)).
+Proof. exact c08_sacn_cap_l. Qed.
+Print Assumptions c08_sacn_cap.
+
+(* sACN, preview flag in both configurations: when the receiver is configured NOT to ignore preview
+   data the flag has no influence at all (same state, same outcome as the packet without / with the
+   flag); when it is configured to ignore it, a wire packet with option bit 7 set changes nothing. *)
+Theorem c08_sacn_preview :
+  (forall c now st p b,
+     c_ignore_preview c = false -> handle c now st (set_preview b p) = handle c now st p) /\
+  (forall c now st w,
+     w_rev2 w = false -> N.testbit (w_opts w) 7 = true -> c_ignore_preview c = true ->
+     handle_wire c now st w = (st, OIgnore)).
+Proof. exact c08_sacn_preview_l. Qed.
+Print Assumptions c08_sacn_preview.
+
+(* sACN, "priorities above 200 are ignored" (MAX_E131_PRIORITY regenerated): a datagram whose priority
+   exceeds it changes nothing in the receiver, and the instance checker of c08_sacn_refines_text ignores
+   it as well (receiver, text state, shadow flags and frozen output unchanged). *)
+Theorem c08_sacn_priority_cap :
+  (forall c now st d,
+     SACN_MAX_PRIORITY < w_prio (d_wire d) -> handle_dgram c now st d = (st, OIgnore)) /\
+  (forall c now k p,
+     SACN_MAX_PRIORITY < p_prio p ->
+     fst (fst (fst (cstep c now k true p))) = k /\ snd (fst (fst (cstep c now k true p))) = OIgnore).
+Proof. exact c08_sacn_priority_cap_l. Qed.
+Print Assumptions c08_sacn_priority_cap.
+
+(* Art-Net, "at most two senders" at node level: after EVERY history of node operations and packets
+   (no guard) every output port has exactly MAX_MERGE_SOURCES (regenerated) sender slots with pairwise
+   distinct addresses; and a packet from a further sender while every slot of a port holds another
+   sender heard within 10 s leaves that port untouched and runs no callback. *)
+Theorem c08_artnet_node_cap :
+  (forall (h : list (N * nop)),
+     Forall (fun p => length (ap_srcs (np_port p)) = N.to_nat ARTNET_MAX_MERGE_SOURCES /\
+                      adistinct (ap_srcs (np_port p)))
+            (n_ports (fst (nrun init_node init_ghosts h)))) /\
+  (forall net now p k,
+     (forall s, In s (ap_srcs (np_port p)) ->
+        a_addr s <> k_addr k /\ a_addr s <> 0 /\ now <= a_ts s + 10000000) ->
+     port_data net now p k = (p, false)).
+Proof. exact c08_artnet_node_cap_l. Qed.
+Print Assumptions c08_artnet_node_cap.
+
+(* sACN, sequence window and terminate WITHOUT range hypotheses on the receiver state: for every history
+   whose packets carry byte sequence numbers (uint8_t on the wire), a packet 0..19 behind the tracked
+   sender's last accepted one triggers no merge and changes no output, and a stream-terminate that is not
+   an old packet removes the sender at once and re-merges the rest (c08_sacn_ignore clause 3 and
+   c08_sacn_terminate with their s_seq < 256 premises discharged by the invariant). *)
+Theorem c08_sacn_window :
+  (forall c h now p s st' oc,
+     (forall np, In np h -> p_seq (snd np) < 256) -> p_seq p < 256 ->
+     let st := fst (grun c init_ust [] h) in
+     In s (u_srcs st) -> s_cid s = p_cid p -> behind (s_seq s) (p_seq p) <= 19 ->
+     handle c now st p = (st', oc) ->
+     u_buf st' = u_buf st /\ u_pout st' = u_pout st /\ no_merge oc /\ In s (u_srcs st') /\
+     (u_srcs st' = u_srcs st \/ u_srcs st' = expire now (p_cid p) (u_srcs st))) /\
+  (forall c h now p s st' oc,
+     (forall np, In np h -> p_seq (snd np) < 256) -> p_seq p < 256 ->
+     let st := fst (grun c init_ust [] h) in
+     In s (u_srcs st) -> s_cid s = p_cid p -> p_term p = true -> 19 < behind (s_seq s) (p_seq p) ->
+     handle c now st p = (st', oc) ->
+     (oc = OIgnore /\ st' = st) \/
+     exists l1 l2, expire now (p_cid p) (u_srcs st) = l1 ++ s :: l2 /\
+       u_srcs st' = l1 ++ l2 /\ oc = OMerge None (negb (is_nil (l1 ++ l2))) /\
+       htp_of (map s_buf (l1 ++ l2)) (u_buf st') /\
+       (forall x, In x (l1 ++ l2) -> s_cid x <> p_cid p)).
+Proof. exact c08_sacn_window_l. Qed.
+Print Assumptions c08_sacn_window.
+
 (* hypotheses are satisfiable / the theorems are not vacuous *)
 Definition ex_pkt (cid prio seq : N) (term : bool) (slots : list N) : pkt :=
   mkPkt 2 cid prio seq 1 false term false 161
@@ -368,3 +472,22 @@ Example ex_node_two_ports :
   map (fun p => ap_buf (np_port p)) (n_ports nd) = [[5; 9]; []; [5; 2]; []] /\
   snd (node_op 300 nd (NData (mkK 1 4 35 2 [0; 0]))) = [true; false; true; false].
 Proof. vm_compute. repeat split; discriminate. Qed.
+
+(* a seventh source at the active priority is refused, an eighth at a higher priority takes over; the
+   same through whole datagrams (ratified and revision-2 framing into one merger) *)
+Example ex_cap_seventh :
+  let h := map (fun i => (100 + i, ex_pkt (1 + i) 100 0 false [i])) [0; 1; 2; 3; 4; 5] in
+  let st := run ex_cfg init_ust h in
+  length (u_srcs st) = 6%nat /\
+  snd (handle ex_cfg 200 st (ex_pkt 7 100 0 false [255])) = ODiscard /\
+  u_buf (fst (handle ex_cfg 200 st (ex_pkt 7 100 0 false [255]))) = u_buf st /\
+  length (u_srcs (fst (handle ex_cfg 201 st (ex_pkt 8 101 0 false [9])))) = 1%nat.
+Proof. vm_compute. repeat split; reflexivity. Qed.
+
+Example ex_datagram_rev2_and_ratified :
+  let w1 := mkW 1 false 2 100 0 0 1 2 161 [0; 0; 0; 1; 0; 3; 0; 1; 9] in
+  let w2 := mkW 2 true 2 100 0 0 1 2 161 [0; 0; 0; 1; 0; 2; 5; 2] in
+  let st := drun ex_cfg init_ust [(100, mkDG true 4 w1); (200, mkDG true 3 w2); (300, mkDG false 4 w1);
+                                   (400, mkDG true 7 w1)] in
+  u_buf st = [5; 9] /\ length (u_srcs st) = 2%nat.
+Proof. vm_compute. split; reflexivity. Qed.
